@@ -174,7 +174,8 @@ fn pow2(k: u32) -> BigUint {
 impl ValDomain {
     pub fn tiny() -> ValDomain {
         ValDomain {
-            nat: vec![BigUint::from(0u8), BigUint::from(128u8)],
+            // 64: the one-byte unsigned LEB128 whose bit 6 a signed reader takes for the sign
+            nat: vec![BigUint::from(0u8), BigUint::from(64u8), BigUint::from(128u8)],
             int: vec![BigInt::from(0), BigInt::from(-65)],
             nat8: vec![0, 255],
             nat16: vec![0, 0xff01],
